@@ -23,7 +23,7 @@ SUBIDS = ("a", "b", 5, None, "\x00\"", ["x"])
 
 @obligation(funcs=["web.start_client", "web.send_subscriptions", "storage.base.BaseStorage.subscribe",
                    "storage.base.NostrQuery.model_validate"],
-            timeout=(200, 900),
+            timeout=(350, 1200),
             bounds="one REQ with sub id from {a, b, 5, null, NUL+quote, list} and filter list from 8 shapes (valid, none, all "
                    "invalid, partly invalid, empty object, two filters, unsatisfiable) by symbolic selectors; 0-2 stored events; "
                    "query permission granted or not")
@@ -75,7 +75,7 @@ NM = 3 if THOROUGH else 2
 @obligation(funcs=["web.start_client", "storage.base.BaseStorage.subscribe", "storage.base.BaseStorage.unsubscribe",
                    "storage.base.BaseStorage.notify_all_connected", "storage.base.BaseSubscription.notify",
                    "storage.kv.LMDBStorage.add_event"],
-            timeout=(280, 1500), params=range(2),
+            timeout=(450, 1800), params=range(2),
             bounds="connection 1 sends <=2 (thorough 3) messages by symbolic selector from {REQ a kinds[1], REQ a kinds[2], REQ b "
                    "kinds[1], CLOSE a, CLOSE b, REQ c kinds[1], REQ a <invalid filter>, REQ a <no filter>, REQ 7, CLOSE 7}, then (PARAM 0) stays connected / (PARAM 1) disconnects; then "
                    "connection 2 submits a kind-1 event; subscription_limit symbolic in {1,2}; 1 stored event per query")
